@@ -2,7 +2,7 @@
 import ast
 
 from ..model import AnalysisError, Model, walk_no_nested, norm_stmt, names_in
-from .. import flow
+from .. import flow, sem
 
 EXPLANATION = (
     'Decided: (R1) the length probe (decode_full_length -> skip_tag_length_contents) and every BER/DER decoder obtain lengths '
@@ -18,6 +18,35 @@ DER = 'asn1tools/codecs/der.py'
 COMP = 'asn1tools/compiler.py'
 
 
+def local_reach(model, f, limit=4):
+    """Functions reachable from f through calls of plain module-level names and self.<method> (the class of f),
+    to a small depth: the helpers a refactoring may have extracted."""
+    seen = {f}
+    frontier = [f]
+    for _ in range(limit):
+        nxt = []
+        for g in frontier:
+            cls = getattr(g, '_cls', None)
+            for c in walk_no_nested(g):
+                if not isinstance(c, ast.Call):
+                    continue
+                t = None
+                if isinstance(c.func, ast.Name):
+                    r = g._mod.resolve_name(c.func.id)
+                    t = r if isinstance(r, ast.FunctionDef) else None
+                elif isinstance(c.func, ast.Attribute) and isinstance(c.func.value, ast.Name) and c.func.value.id == 'self' and cls is not None:
+                    r = cls.find_method(c.func.attr)
+                    t = r[1] if r else None
+                elif isinstance(c.func, ast.Attribute):
+                    r = g._mod.resolve(c.func)
+                    t = r if isinstance(r, ast.FunctionDef) else None
+                if t is not None and t not in seen:
+                    seen.add(t)
+                    nxt.append(t)
+        frontier = nxt
+    return seen
+
+
 def check(ctx):
     model = ctx.model
     ber = model.mod(BER)
@@ -30,23 +59,33 @@ def check(ctx):
     # ---- R1
     dfl = model.func(BER, 'decode_full_length')
     stlc = model.func(BER, 'skip_tag_length_contents')
-    calls = [ast.unparse(c.func) for c in walk_no_nested(dfl) if isinstance(c, ast.Call)]
-    ok = 'skip_tag_length_contents' in calls
+    dl = model.func(BER, 'decode_length')
+    skt = model.func(BER, 'skip_tag')
+    ok = stlc in local_reach(model, dfl)
     ctx.instance('C15.R1', '%s -> skip_tag_length_contents' % Model.qual(dfl), 'ok' if ok else 'VIOLATION', node=dfl, file=BER)
     if not ok:
         ctx.violation('C15.R1', BER, dfl, Model.qual(dfl), 'the length probe no longer goes through skip_tag_length_contents', stmt='probe callee')
-    c2 = [ast.unparse(c.func) for c in walk_no_nested(stlc) if isinstance(c, ast.Call)]
-    ok = 'skip_tag' in c2 and 'decode_length' in c2
-    # result = sum(decode_length(...)) or offset+length of the same call
-    ret = [r for r in walk_no_nested(stlc) if isinstance(r, ast.Return)]
-    shape = bool(ret) and all(ast.unparse(r.value).replace(' ', '') in ('sum(decode_length(data,offset))',) or
-                              ('decode_length' in ast.unparse(r.value)) or _is_sum_of_pair(r.value, stlc) for r in ret)
-    # enforce_definite must stay True for the probe (indefinite => cannot know) -- default arg
-    dl_call = [c for c in walk_no_nested(stlc) if isinstance(c, ast.Call) and ast.unparse(c.func) == 'decode_length']
-    ok = ok and shape and all(not any(k.arg == 'enforce_definite' for k in c.keywords) and len(c.args) == 2 for c in dl_call)
+    # skip_tag_length_contents(data, offset) = o + l  where (l, o) = decode_length(data, skip_tag(data, offset)), definite lengths enforced
+    ps = sem.paths(stlc, positional=True)
+    ok = ps is not None and len([p for p in ps if p.outcome[0] == 'return']) >= 1
+    why = ''
+    for p in (ps or []):
+        if p.outcome[0] != 'return':
+            continue
+        e = p.outcome[3]
+        dcalls = [n for n in ast.walk(e) if isinstance(n, ast.Call) and sem.callee_name(n) == 'decode_length']
+        texts = {sem.ctext(c) for c in dcalls}
+        want = 'decode_length(ARG0, skip_tag(ARG0, ARG1))'
+        if texts != {want}:
+            ok, why = False, 'the probed length is not read by decode_length(data, skip_tag(data, offset)) with definite lengths enforced: %s' % sorted(texts)
+            continue
+        is_sum = isinstance(e, ast.Call) and sem.callee_name(e) == 'sum' and len(e.args) == 1 and sem.ctext(e.args[0]) == want
+        is_add = sem.ctext(e) == sem.ctext(sem.parse_expr('%s[0] + %s[1]' % (want, want)))
+        if not (is_sum or is_add):
+            ok, why = False, 'the result is %s, not offset + length of that call' % sem.ctext(e)
     ctx.instance('C15.R1', '%s = skip_tag + decode_length' % Model.qual(stlc), 'ok' if ok else 'VIOLATION', node=stlc, file=BER)
     if not ok:
-        ctx.violation('C15.R1', BER, stlc, Model.qual(stlc), 'skip_tag_length_contents no longer returns offset + length from skip_tag and decode_length', stmt='probe shape')
+        ctx.violation('C15.R1', BER, stlc, Model.qual(stlc), 'skip_tag_length_contents no longer returns offset + length from skip_tag and decode_length (%s)' % why, stmt='probe shape')
     # der re-exports the same function
     der = model.mod(DER)
     r = der.resolve_name('decode_full_length')
@@ -54,11 +93,10 @@ def check(ctx):
     ctx.instance('C15.R1', 'der.decode_full_length is ber.decode_full_length', 'ok' if ok else 'VIOLATION', node=der.tree, file=DER)
     if not ok:
         ctx.violation('C15.R1', DER, der.tree.body[0], 'der.decode_full_length', 'DER no longer uses the BER length probe', stmt='der probe')
-    # every decoder gets its length via decode_length and (for unknown tags) skip_tag
+    # every decoder gets its length via decode_length (directly or through a helper of the module)
     for qual in ('StandardDecodeMixin.decode', 'PrimitiveOrConstructedType.decode', 'Any.decode', 'AnyDefinedBy.decode'):
         f = model.func(BER, qual)
-        cs = [ast.unparse(c.func) for c in walk_no_nested(f) if isinstance(c, ast.Call)]
-        ok = 'decode_length' in cs
+        ok = dl in local_reach(model, f)
         ctx.instance('C15.R1', '%s uses decode_length' % Model.qual(f), 'ok' if ok else 'VIOLATION', node=f, file=BER)
         if not ok:
             ctx.violation('C15.R1', BER, f, Model.qual(f), 'decoder reads the length without decode_length: probe and decoder can disagree', stmt='decoder length reader')
@@ -69,8 +107,9 @@ def check(ctx):
                           'decode_object_identifier_subidentifier', 'encode_real', 'decode_real_binary', 'decode_real', 'decode_real_special',
                           'decode_real_decimal'):
                 continue
-            src = ast.unparse(f)
-            if '& 127' in src and 'length' in src:
+            masks = [n for n in walk_no_nested(f) if isinstance(n, ast.BinOp) and isinstance(n.op, ast.BitAnd)
+                     and any(isinstance(x, ast.Constant) and x.value == 0x7f for x in (n.left, n.right))]
+            if masks and 'length' in ast.unparse(f) and 'decode' in f.name:
                 ctx.violation('C15.R1', rel, f, Model.qual(f), 'a second long-form length reader (& 0x7f on a length octet) outside decode_length')
 
     # ---- R2
@@ -78,38 +117,64 @@ def check(ctx):
     if len(tries) != 1:
         raise AnalysisError('decode_full_length: expected one try statement')
     hs = tries[0].handlers
+    mde = model.cls(BER, 'MissingDataError')
+    oob = model.cls(BER, 'OutOfByteDataError')
+
+    def caught(h):
+        if h.type is None:
+            return None
+        ts = h.type.elts if isinstance(h.type, ast.Tuple) else [h.type]
+        return [dfl._mod.resolve(t) for t in ts]
+    first_mde = None
+    shadow = None
+    for i, h in enumerate(hs):
+        cs = caught(h)
+        if cs is None or any(c is not None and hasattr(c, 'mro') and c is not mde and c in mde.mro() for c in cs) or (cs and any(c is None for c in cs)):
+            # catches a base class of MissingDataError (OutOfByteDataError, DecodeError, Exception, bare except)
+            if first_mde is None and shadow is None:
+                shadow = h
+        if cs and any(c is mde for c in cs) and first_mde is None:
+            first_mde = h
+    ok = first_mde is not None and shadow is None or (first_mde is not None and shadow is not None and hs.index(first_mde) < hs.index(shadow))
     names = [ast.unparse(h.type) if h.type is not None else '' for h in hs]
-    ok = names == ['MissingDataError', 'OutOfByteDataError']
     ctx.instance('C15.R2', '%s handlers %s' % (Model.qual(dfl), names), 'ok' if ok else 'VIOLATION', node=tries[0], file=BER)
     if not ok:
         ctx.violation('C15.R2', BER, tries[0], Model.qual(dfl),
-                      'handlers are %s; expected [MissingDataError, OutOfByteDataError] in that order (the first is a subclass of the second: '
+                      'handlers are %s; MissingDataError must be caught before OutOfByteDataError (the first is a subclass of the second: '
                       'swapped or merged, every answer becomes None or an exception escapes)' % names, stmt='handler order')
     else:
-        h0, h1 = hs
+        h0 = first_mde
+        h1 = [h for h in hs if h is not h0 and (caught(h) is None or any(c is oob for c in caught(h)))]
         r0 = [r for r in ast.walk(h0) if isinstance(r, ast.Return)]
-        ok0 = len(r0) == 1 and h0.name and ast.unparse(r0[0].value).replace(' ', '') in (
-            '%s.offset+%s.expected_length' % (h0.name, h0.name), '%s.expected_length+%s.offset' % (h0.name, h0.name))
+        ok0 = len(r0) == 1 and h0.name and r0[0].value is not None and \
+            sem.ctext(r0[0].value) == sem.ctext(sem.parse_expr('%s.offset + %s.expected_length' % (h0.name, h0.name)))
         ctx.instance('C15.R2', '%s MissingDataError -> offset + expected_length' % Model.qual(dfl), 'ok' if ok0 else 'VIOLATION', node=h0, file=BER)
         if not ok0:
             ctx.violation('C15.R2', BER, h0, Model.qual(dfl), 'MissingDataError is not mapped to e.offset + e.expected_length', stmt='MissingDataError mapping')
-        r1 = [r for r in ast.walk(h1) if isinstance(r, ast.Return)]
-        ok1 = len(r1) == 1 and (r1[0].value is None or (isinstance(r1[0].value, ast.Constant) and r1[0].value.value is None))
-        ctx.instance('C15.R2', '%s OutOfByteDataError -> None' % Model.qual(dfl), 'ok' if ok1 else 'VIOLATION', node=h1, file=BER)
+        ok1 = bool(h1)
+        for h in h1:
+            r1 = [r for r in ast.walk(h) if isinstance(r, ast.Return)]
+            falls = not r1 and not any(isinstance(x, ast.Raise) for x in ast.walk(h))
+            if not (falls or (len(r1) == 1 and (r1[0].value is None or (isinstance(r1[0].value, ast.Constant) and r1[0].value.value is None)))):
+                ok1 = False
+        ctx.instance('C15.R2', '%s OutOfByteDataError -> None' % Model.qual(dfl), 'ok' if ok1 else 'VIOLATION', node=h1[0] if h1 else dfl, file=BER)
         if not ok1:
-            ctx.violation('C15.R2', BER, h1, Model.qual(dfl), 'OutOfByteDataError is not mapped to None ("not yet known")', stmt='OutOfByteDataError mapping')
-    # the try body returns the probe result unchanged
+            ctx.violation('C15.R2', BER, h1[0] if h1 else dfl, Model.qual(dfl), 'OutOfByteDataError is not mapped to None ("not yet known")', stmt='OutOfByteDataError mapping')
+    # the try body returns the probe result unchanged: skip_tag_length_contents(<the whole data>, 0)
+    v = sem.View(dfl)
     body_ret = [r for s in tries[0].body for r in ast.walk(s) if isinstance(r, ast.Return)]
-    ok = len(body_ret) == 1 and isinstance(body_ret[0].value, ast.Call) and ast.unparse(body_ret[0].value.func) == 'skip_tag_length_contents' \
-        and len(body_ret[0].value.args) == 2 and ast.unparse(body_ret[0].value.args[1]) == '0' \
-        and names_in(body_ret[0].value.args[0]) - {'bytearray', 'bytes', 'memoryview'} == {flow.param_names(dfl)[0]} \
-        and not any(isinstance(n, (ast.Subscript, ast.BinOp)) for n in ast.walk(body_ret[0].value.args[0]))
+    after = [r for s in tries[0].orelse + dfl.body[dfl.body.index(tries[0]) + 1:] for r in ast.walk(s) if isinstance(r, ast.Return)]
+    rets = body_ret + after
+    ok = len(rets) == 1 and rets[0].value is not None
+    if ok:
+        e = v.expr(rets[0].value)
+        ok = isinstance(e, ast.Call) and sem.callee_name(e) == 'skip_tag_length_contents' and len(e.args) == 2 and ast.unparse(e.args[1]) == '0' \
+            and names_in(e.args[0]) - {'bytearray', 'bytes', 'memoryview'} == {flow.param_names(dfl)[0]} \
+            and not any(isinstance(n, (ast.Subscript, ast.BinOp)) for n in ast.walk(e.args[0]))
     ctx.instance('C15.R2', '%s returns the probe result from offset 0' % Model.qual(dfl), 'ok' if ok else 'VIOLATION', node=dfl, file=BER)
     if not ok:
         ctx.violation('C15.R2', BER, dfl, Model.qual(dfl), 'decode_full_length does not return skip_tag_length_contents(<the whole data>, 0) unchanged (a sliced or offset buffer makes the probe disagree with the decoder for long headers)', stmt='probe result')
     # MissingDataError class hierarchy and constructor positions
-    mde = model.cls(BER, 'MissingDataError')
-    oob = model.cls(BER, 'OutOfByteDataError')
     ok = oob in mde.mro()
     ctx.instance('C15.R2', 'MissingDataError < OutOfByteDataError', 'ok' if ok else 'VIOLATION', node=mde.node, file=BER)
     if not ok:
@@ -118,27 +183,44 @@ def check(ctx):
     if init is None:
         raise AnalysisError('MissingDataError.__init__ vanished')
     pn = flow.param_names(init)[1:]
-    dl = model.func(BER, 'decode_length')
-    raises = [r for r in walk_no_nested(dl) if isinstance(r, ast.Raise) and isinstance(r.exc, ast.Call) and ast.unparse(r.exc.func) == 'MissingDataError']
-    if len(raises) != 1:
-        raise AnalysisError('decode_length: expected exactly one raise MissingDataError')
-    call = raises[0].exc
-    amap = {}
-    for i, a in enumerate(call.args):
-        if i < len(pn):
-            amap[pn[i]] = ast.unparse(a)
-    for k in call.keywords:
-        amap[k.arg] = ast.unparse(k.value)
-    ok = amap.get('offset') == 'offset' and amap.get('expected_length') == 'length'
-    # and offset at that point is past the length octets: no assignment to offset after the raise's guard other than increments before it
-    ctx.instance('C15.R2', 'decode_length raises MissingDataError(offset=%s, expected_length=%s)' % (amap.get('offset'), amap.get('expected_length')),
-                 'ok' if ok else 'VIOLATION', node=raises[0], file=BER)
+    dps = sem.paths(dl, positional=True)
+    if dps is None:
+        raise AnalysisError('decode_length: too many paths')
+    rp = [p for p in dps if p.outcome[0] == 'raise' and p.outcome[1] == 'MissingDataError']
+    if not rp:
+        raise AnalysisError('decode_length: no path raises MissingDataError')
+    ok = True
+    shown = None
+    for p in rp:
+        call = sem.subst(p.outcome[3].exc, p.env) if False else None
+        node = p.outcome[3]
+        exc = sem.bounded(sem.subst(node.exc, p.env))
+        amap = {}
+        for i, a in enumerate(exc.args):
+            if i < len(pn):
+                amap[pn[i]] = a
+        for k in exc.keywords:
+            amap[k.arg] = k.value
+        shown = {k: sem.ctext(x) for k, x in amap.items() if k in ('offset', 'expected_length')}
+        if 'offset' not in amap or 'expected_length' not in amap:
+            ok = False
+            continue
+        # the probe adds them: they must be exactly the two quantities whose sum was found to exceed the data
+        t, pol = sem.ccond(ast.Compare(ast.BinOp(amap['offset'], ast.Add(), amap['expected_length']), [ast.Gt()], [sem.parse_expr('len(ARG0)')]))
+        if not p.has(t, pol):
+            ok = False
+        # and the offset is the position after the length octets = the offset the function would return
+        sib = [q for q in dps if q.outcome[0] == 'return' and q.conds[:-1] == p.conds[:-1] and isinstance(q.outcome[3], ast.Tuple)]
+        if sib and not (sem.ctext(sib[0].outcome[3].elts[1]) == sem.ctext(amap['offset']) and sem.ctext(sib[0].outcome[3].elts[0]) == sem.ctext(amap['expected_length'])):
+            ok = False
+    ctx.instance('C15.R2', 'decode_length raises MissingDataError(%s) on %d paths' % (shown, len(rp)), 'ok' if ok else 'VIOLATION', node=rp[0].outcome[3], file=BER)
     if not ok:
-        ctx.violation('C15.R2', BER, raises[0], Model.qual(dl), 'MissingDataError is constructed with offset=%s expected_length=%s; the probe adds them to obtain the total length'
-                      % (amap.get('offset'), amap.get('expected_length')), stmt='MissingDataError arguments')
+        ctx.violation('C15.R2', BER, rp[0].outcome[3], Model.qual(dl), 'MissingDataError is constructed with %s; the probe adds offset and expected_length to obtain the total length, so they must be '
+                      'the offset after the length octets and the contents length' % shown, stmt='MissingDataError arguments')
     # __init__ stores expected_length and passes offset on
-    isrc = ast.unparse(init)
-    ok = 'self.expected_length = expected_length' in isrc and ('offset' in ast.unparse([c for c in ast.walk(init) if isinstance(c, ast.Call)][0]))
+    stores = {ast.unparse(t): ast.unparse(a.value) for a in walk_no_nested(init) if isinstance(a, ast.Assign) for t in a.targets}
+    sup = [c for c in walk_no_nested(init) if isinstance(c, ast.Call) and isinstance(c.func, ast.Attribute) and c.func.attr == '__init__']
+    ok = stores.get('self.expected_length') == 'expected_length' and (stores.get('self.offset') == 'offset' or any('offset' in names_in(c) for c in sup))
     ctx.instance('C15.R2', 'MissingDataError.__init__ keeps offset and expected_length', 'ok' if ok else 'VIOLATION', node=init, file=BER)
     if not ok:
         ctx.violation('C15.R2', BER, init, Model.qual(init), 'MissingDataError.__init__ no longer records offset/expected_length')
@@ -158,22 +240,30 @@ def check(ctx):
                 ctx.instance('C15.R3', '%s %s' % (Model.qual(f), ast.unparse(n)), 'IndexError mapped' if ok else 'VIOLATION', node=n, file=BER)
                 if not ok:
                     ctx.violation('C15.R3', BER, n, Model.qual(f), 'buffer index %s can raise IndexError to the caller of decode_length()/decode_full_length()' % ast.unparse(n))
-    # skip_tag: a tag that ends exactly at the end of data is "not yet known" (offset >= len(data) test)
-    f = model.func(BER, 'skip_tag')
-    ok = any(isinstance(n, ast.If) and ast.unparse(n.test).replace(' ', '') in ('offset>=len(data)', 'len(data)<=offset')
-             and any(isinstance(r, ast.Raise) and 'OutOfByteDataError' in ast.unparse(r) for r in n.body) for n in walk_no_nested(f))
-    ctx.instance('C15.R3', '%s end-of-data after the identifier octets' % Model.qual(f), 'ok' if ok else 'VIOLATION', node=f, file=BER)
+    # skip_tag: a tag that ends exactly at the end of data is "not yet known": every returning path has established  returned offset < len(data)
+    sps = sem.paths(skt, positional=True)
+    ok = sps is not None
+    nret = 0
+    for p in (sps or []):
+        if p.outcome[0] != 'return':
+            continue
+        nret += 1
+        t, pol = sem.ccond(ast.Compare(sem.clone(p.outcome[3]), [ast.GtE()], [sem.parse_expr('len(ARG0)')]))
+        if not p.has(t, not pol):
+            ok = False
+    ok = ok and nret >= 1
+    ctx.instance('C15.R3', '%s end-of-data after the identifier octets (%d returning paths)' % (Model.qual(skt), nret), 'ok' if ok else 'VIOLATION', node=skt, file=BER)
     if not ok:
-        ctx.violation('C15.R3', BER, f, Model.qual(f), 'a prefix that ends right after the identifier octets is no longer reported as out of data', stmt='offset >= len(data) test')
+        ctx.violation('C15.R3', BER, skt, Model.qual(skt), 'a prefix that ends right after the identifier octets is no longer reported as out of data', stmt='offset >= len(data) test')
     ctx.floor('C15.R3', 4)
 
     # ---- R4
     et = model.func(BER, 'encode_tag')
-    st = model.func(BER, 'skip_tag')
+    st = skt
     consts_e = sorted({n.value for n in ast.walk(et) if isinstance(n, ast.Constant) and isinstance(n.value, int) and not isinstance(n.value, bool)})
     consts_s = sorted({n.value for n in ast.walk(st) if isinstance(n, ast.Constant) and isinstance(n.value, int) and not isinstance(n.value, bool)})
-    ok_e = consts_e == [0, 7, 31, 127, 128]
-    ok_s = consts_s == [1, 31, 128]
+    ok_e = {31, 127, 128} <= set(consts_e) <= {0, 1, 7, 8, 31, 127, 128}
+    ok_s = {31, 128} <= set(consts_s) <= {0, 1, 2, 31, 128}
     ctx.instance('C15.R4', 'encode_tag constants %s' % consts_e, 'ok' if ok_e else 'VIOLATION', node=et, file=BER)
     ctx.instance('C15.R4', 'skip_tag constants %s' % consts_s, 'ok' if ok_s else 'VIOLATION', node=st, file=BER)
     if not ok_e:
@@ -181,13 +271,18 @@ def check(ctx):
     if not ok_s:
         ctx.violation('C15.R4', BER, st, Model.qual(st), 'skip_tag constants %s differ from X.690 8.1.2.4 {0x1f, 0x80}' % consts_s, stmt='skip_tag constants')
     # comparison operator:  number < 31 selects the short form
-    cmp_ = [n for n in walk_no_nested(et) if isinstance(n, ast.Compare) and isinstance(n.comparators[0], ast.Constant) and n.comparators[0].value == 31]
-    ok = len(cmp_) == 1 and isinstance(cmp_[0].ops[0], ast.Lt) and ast.unparse(cmp_[0].left) == 'number'
+    eps = sem.paths(et, positional=True) or []
+    low = sem.ccond(sem.parse_expr('ARG0 < 31'))
+    ok = any(p.has(low[0], low[1]) for p in eps) and any(p.has(low[0], not low[1]) for p in eps)
     ctx.instance('C15.R4', 'encode_tag short form iff number < 31', 'ok' if ok else 'VIOLATION', node=et, file=BER)
     if not ok:
         ctx.violation('C15.R4', BER, et, Model.qual(et), 'low-tag-number form must be used for numbers 0..30 only', stmt='number < 31')
-    t = [n for n in walk_no_nested(st) if isinstance(n, ast.Compare) and '31' in ast.unparse(n)]
-    ok = len(t) == 1 and ast.unparse(t[0]).replace(' ', '') in ('byte&31==31',)
+    def is31(x):
+        return isinstance(x, ast.Constant) and x.value == 31
+    t = [n for n in walk_no_nested(st) if isinstance(n, ast.Compare) and len(n.ops) == 1 and isinstance(n.ops[0], ast.Eq)
+         and any(isinstance(a, ast.BinOp) and isinstance(a.op, ast.BitAnd) and (is31(a.left) or is31(a.right)) and is31(b)
+                 for a, b in ((n.left, n.comparators[0]), (n.comparators[0], n.left)))]
+    ok = len(t) >= 1
     ctx.instance('C15.R4', 'skip_tag long form iff byte & 0x1f == 0x1f', 'ok' if ok else 'VIOLATION', node=st, file=BER)
     if not ok:
         ctx.violation('C15.R4', BER, st, Model.qual(st), 'high-tag-number test changed', stmt='byte & 0x1f == 0x1f')
@@ -195,53 +290,76 @@ def check(ctx):
     # ---- R5
     for rel in (BER,):
         f = model.func(rel, 'CompiledType.decode_with_length')
-        decs = [c for c in walk_no_nested(f) if isinstance(c, ast.Call) and isinstance(c.func, ast.Attribute) and c.func.attr == 'decode']
-        ok = len(decs) == 1
-        if ok:
-            stt = Model.enclosing_stmt(decs[0])
-            ok = isinstance(stt, ast.Assign) and isinstance(stt.targets[0], ast.Tuple) and len(stt.targets[0].elts) == 2
-            if ok:
-                v, o = [e.id for e in stt.targets[0].elts]
-                rets = [r for r in walk_no_nested(f) if isinstance(r, ast.Return)]
-                ok = len(rets) == 1 and isinstance(rets[0].value, ast.Tuple) and [ast.unparse(e) for e in rets[0].value.elts] == [v, o]
-                # no re-binding of v / o between
-                for a in walk_no_nested(f):
-                    if isinstance(a, (ast.Assign, ast.AugAssign)) and a is not stt:
-                        tg = a.targets[0] if isinstance(a, ast.Assign) else a.target
-                        if set(flow.target_names(tg)) & {v, o}:
-                            ok = False
-                # start offset 0
-                ok = ok and len(decs[0].args) >= 2 and ast.unparse(decs[0].args[1]) == '0'
-                # sentinel check present
-                ok = ok and any(isinstance(c, ast.Call) and ast.unparse(c.func) == 'check_decode_error' for c in walk_no_nested(f))
+        ps = sem.paths(f, positional=True)
+        rets = [p for p in (ps or []) if p.outcome[0] == 'return']
+        ok = bool(rets)
+        for p in rets:
+            e = p.outcome[3]
+            if not (isinstance(e, ast.Tuple) and len(e.elts) == 2):
+                ok = False
+                continue
+            a, b = e.elts
+            # (X[0], X[1]) for one type-level decode call X that starts at offset 0
+            if not (isinstance(a, ast.Subscript) and isinstance(b, ast.Subscript) and ast.unparse(a.slice) == '0' and ast.unparse(b.slice) == '1'
+                    and sem.ctext(a.value) == sem.ctext(b.value) and isinstance(a.value, ast.Call) and sem.callee_name(a.value) == 'decode'
+                    and len(a.value.args) >= 2 and ast.unparse(a.value.args[1]) == '0'):
+                ok = False
+            if not p.calls('check_decode_error'):
+                ok = False
         ctx.instance('C15.R5', Model.qual(f), 'ok' if ok else 'VIOLATION', node=f, file=rel)
         if not ok:
             ctx.violation('C15.R5', rel, f, Model.qual(f), 'decode_with_length must return (value, offset) of the single decode(data, 0) call after check_decode_error', stmt='decode_with_length shape')
         g = model.func(rel, 'CompiledType.decode')
-        ok = _returns_result_of(g, 'self.decode_with_length')
+        ok = _projection_of(g, 'decode_with_length')
         ctx.instance('C15.R5', Model.qual(g), 'ok' if ok else 'VIOLATION', node=g, file=rel)
         if not ok:
             ctx.violation('C15.R5', rel, g, Model.qual(g), 'decode() is no longer decode_with_length()[0]: the two entry points may disagree', stmt='decode = decode_with_length[0]')
     sp = model.func(COMP, 'Specification.decode_with_length')
-    rets = [r for r in walk_no_nested(sp) if isinstance(r, ast.Return)]
-    asg = [a for a in walk_no_nested(sp) if isinstance(a, ast.Assign) and isinstance(a.value, ast.Call) and ast.unparse(a.value.func).endswith('.decode_with_length')]
-    ok = len(rets) == 1 and len(asg) == 1 and isinstance(asg[0].targets[0], ast.Tuple) and \
-        [ast.unparse(e) for e in asg[0].targets[0].elts] == [ast.unparse(e) for e in getattr(rets[0].value, 'elts', [])]
+    ok = _projection_of(sp, 'decode_with_length', whole=True)
     ctx.instance('C15.R5', Model.qual(sp), 'ok' if ok else 'VIOLATION', node=sp, file=COMP)
     if not ok:
         ctx.violation('C15.R5', COMP, sp, Model.qual(sp), 'Specification.decode_with_length does not return the codec result unchanged', stmt='pass-through')
     sl = model.func(COMP, 'Specification.decode_length')
-    ok = _returns_result_of(sl, 'self._decode_length')
+    ok = _projection_of(sl, '_decode_length', whole=True)
     ctx.instance('C15.R5', Model.qual(sl), 'ok' if ok else 'VIOLATION', node=sl, file=COMP)
     if not ok:
         ctx.violation('C15.R5', COMP, sl, Model.qual(sl), 'Specification.decode_length does not return the probe result unchanged', stmt='pass-through')
     cd = model.func(COMP, 'compile_dict')
-    ok = 'codec.decode_full_length' in ast.unparse(cd)
-    ctx.instance('C15.R5', 'compile_dict wires codec.decode_full_length', 'ok' if ok else 'VIOLATION', node=cd, file=COMP)
+    ok = any(isinstance(n, ast.Attribute) and n.attr == 'decode_full_length' for n in walk_no_nested(cd))
+    ctx.instance('C15.R5', 'compile_dict wires the codec\'s decode_full_length', 'ok' if ok else 'VIOLATION', node=cd, file=COMP)
     if not ok:
         ctx.violation('C15.R5', COMP, cd, Model.qual(cd), 'Specification no longer receives the codec own decode_full_length', stmt='probe wiring')
     ctx.floor('C15.R1', 6)
     ctx.floor('C15.R2', 6)
+
+
+def _projection_of(f, callee, whole=False):
+    """Every value f returns is the result of one call of `callee` -- unchanged (whole=True: the result itself or the tuple of its
+    components in order) or a component of it -- with no arithmetic applied."""
+    ps = sem.paths(f)
+    if ps is None:
+        return False
+    rets = [p for p in ps if p.outcome[0] == 'return']
+    if not rets:
+        return False
+    for p in rets:
+        e = p.outcome[3]
+        calls = {sem.ctext(c) for c in ast.walk(e) if isinstance(c, ast.Call) and sem.callee_name(c) == callee}
+        if len(calls) != 1:
+            return False
+        ct = list(calls)[0]
+        def is_call(x):
+            return isinstance(x, ast.Call) and sem.ctext(x) == ct
+        def is_comp(x, i=None):
+            return isinstance(x, ast.Subscript) and is_call(x.value) and isinstance(x.slice, ast.Constant) and (i is None or x.slice.value == i)
+        if is_call(e):
+            continue
+        if isinstance(e, ast.Tuple) and all(is_comp(x, i) for i, x in enumerate(e.elts)):
+            continue
+        if not whole and is_comp(e):
+            continue
+        return False
+    return True
 
 
 def _returns_result_of(f, callee):
